@@ -357,3 +357,25 @@ def _cond_nonzero(repo, ob, failure):
         if got != want:
             return {"input": doc, "observed": "body %s" % ("rendered" if got else "not rendered"), "expected": "body %s" % ("rendered" if want else "not rendered")}
     return None
+
+
+@generator("C16.loop.")
+@generator("C14.header.once")
+def _loop_unrolling(repo, ob, failure):
+    """a loop renders what its unrolling renders; header expressions are evaluated once, before the passes"""
+    def count(doc, needle):
+        r = run_svgdx(repo, doc)
+        return None if r["rc"] != 0 else r["out"].count(needle)
+    cases = [
+        ('<svg><var n="3"/><loop count="$n"><var n="{{$n - 1}}"/><rect class="z" wh="2"/></loop></svg>', 3),
+        ('<svg><var n="2"/><loop count="$n"><var n="{{$n + 1}}"/><rect class="z" wh="2"/></loop></svg>', 2),
+        ('<svg><loop count="4" loop-var="i" start="1" step="2"><rect class="z" wh="$i"/></loop></svg>', 4),
+        ('<svg><var i="0"/><loop while="{{lt($i, 3)}}"><var i="{{$i + 1}}"/><rect class="z" wh="2"/></loop></svg>', 3),
+        ('<svg><var i="0"/><loop until="{{ge($i, 3)}}"><var i="{{$i + 1}}"/><rect class="z" wh="2"/></loop></svg>', 3),
+        ('<svg><var i="5"/><loop until="{{ge($i, 3)}}"><var i="{{$i + 1}}"/><rect class="z" wh="2"/></loop></svg>', 1),
+    ]
+    for doc, want in cases:
+        got = count(doc, 'class="z"')
+        if got is not None and got != want:
+            return {"input": doc, "observed": "%d copies of the body" % got, "expected": "%d copies (the manual unrolling)" % want}
+    return None
